@@ -96,6 +96,8 @@ type Interp struct {
 	nextObj  int
 	hostSyms map[string]Sym
 	pathSplitFn map[*ssa.Function]bool
+	// LenProofUsed: the '< len' references that actually discharged an index obligation
+	LenProofUsed map[*Object]bool
 	lenCells    map[CellKey]*Object // pseudo objects naming "the slice held by this cell" for '< len' facts
 }
 
